@@ -117,3 +117,17 @@ def safe_handed_to_same_kind(modules: str | list[str]):
 
 def safe_wrapped(modules: str | list[str]):
     return [modules]
+
+
+def safe_boolean_local(modules: str | list[str]):
+    batch = not isinstance(modules, str)
+    names = list(modules) if batch else [modules]
+    return names
+
+
+def unsafe_stale_boolean_local(modules: str | list[str], other: str | list[str]):
+    batch = isinstance(modules, list)
+    modules = other
+    if batch:
+        return sorted(modules)
+    return [modules]
